@@ -217,7 +217,7 @@ def generate(ctx, entries, quick):
     """returns {entry name: {"bfs": {id: case}, "sim": {id: case}}} de-duplicated by case id.
     One TLC run per mode; the catalog entry is chosen by the initial state (C01_ENTRY=0)."""
     jobs = [("bfs", dict(workers=6, env=gen_env(0, GEN_BFS if quick else GEN_BFS_T), timeout=2400, deadlock=False, tag="gen-bfs")),
-            ("sim", dict(workers=1, env=gen_env(0, GEN_SIM), simulate=(260 if quick else 2000) * len(entries), depth=80, seed=ctx.seed,
+            ("sim", dict(workers=1, env=gen_env(0, GEN_SIM), simulate=(150 if quick else 2000) * len(entries), depth=80, seed=ctx.seed,
                          timeout=2400, deadlock=False, tag="gen-sim"))]
     if not quick:
         jobs.append(("bfs", dict(workers=6, env=gen_env(0, GEN_BFS_F), timeout=2400, deadlock=False, tag="gen-bfs-fragments")))
@@ -527,25 +527,30 @@ def run(ctx):
     # ---- 1. catalog -------------------------------------------------------------------------------
     entries, catalog_path, pinned = load_catalog(ctx)
     entry_index = {e["name"]: i + 1 for i, e in enumerate(entries)}
-    # ---- 2. model check the nondeterministic federated executor ----------------------------------
+    # ---- 2. model check the nondeterministic federated executor (in the background, while the operations are generated)
     empty_ops = ctx.path("no-ops.ndjson")
     lib.write_ndjson(empty_ops, [])
-    mc = ctx.tlc_must_pass(SPEC_DIR, "FedNondet", "MC_FedNondet.cfg", workers=8, timeout=1500, env={"C01_OPS": empty_ops}, tag="mc-fednondet")
-    neg = ctx.tlc(SPEC_DIR, "FedNondet", "MC_FedNondet_neg.cfg", workers=4, timeout=600, count=False, env={"C01_OPS": empty_ops},
-                  tag="mc-fednondet-negative")
-    if neg.violated != "FedRefinesMonolith":
-        raise lib.Inconclusive("sanity: with a universe whose keys are not unique the federated model must be able to diverge "
-                               "from the monolith (non-vacuity of FedRefinesMonolith), got %r" % neg.error)
-    neg2 = ctx.tlc(SPEC_DIR, "FedNondet", "MC_FedNondet_neg2.cfg", workers=4, timeout=600, count=False, env={"C01_OPS": empty_ops},
-                   tag="mc-fednondet-negative-owners-disagree")
-    if neg2.violated != "FedRefinesMonolith":
-        raise lib.Inconclusive("sanity: when two owners of a shared field disagree the federated model must be able to diverge from "
-                               "the monolith (OwnersAgree is a necessary part of Consistent), got %r" % neg2.error)
+    mpool = concurrent.futures.ThreadPoolExecutor(max_workers=4)
+    mc = mpool.submit(ctx.tlc_must_pass, SPEC_DIR, "FedNondet", "MC_FedNondet.cfg", workers=4, timeout=1500, env={"C01_OPS": empty_ops}, tag="mc-fednondet")
+    neg = mpool.submit(ctx.tlc, SPEC_DIR, "FedNondet", "MC_FedNondet_neg.cfg", workers=2, timeout=600, count=False, env={"C01_OPS": empty_ops},
+                       tag="mc-fednondet-negative")
+    neg2 = mpool.submit(ctx.tlc, SPEC_DIR, "FedNondet", "MC_FedNondet_neg2.cfg", workers=2, timeout=600, count=False, env={"C01_OPS": empty_ops},
+                        tag="mc-fednondet-negative-owners-disagree")
     # every order of the independent fetches (no partial-order reduction): quick = two operations of `basic`,
     # thorough = all pinned operations of `basic` and `provides`
-    free = concurrent.futures.ThreadPoolExecutor(max_workers=1).submit(
-        ctx.tlc_must_pass, SPEC_DIR, "FedNondet", "MC_FedNondet_freesmall.cfg" if quick else "MC_FedNondet_free.cfg", workers=4 if quick else 8,
-        timeout=2400, env={"C01_OPS": empty_ops}, tag="mc-fednondet-every-fetch-order")
+    free = mpool.submit(ctx.tlc_must_pass, SPEC_DIR, "FedNondet", "MC_FedNondet_freesmall.cfg" if quick else "MC_FedNondet_free.cfg",
+                        workers=2 if quick else 8, timeout=2400, env={"C01_OPS": empty_ops}, tag="mc-fednondet-every-fetch-order")
+
+    def model_verdicts():
+        mc.result()
+        if neg.result().violated != "FedRefinesMonolith":
+            raise lib.Inconclusive("sanity: with a universe whose keys are not unique the federated model must be able to diverge "
+                                   "from the monolith (non-vacuity of FedRefinesMonolith), got %r" % neg.result().error)
+        if neg2.result().violated != "FedRefinesMonolith":
+            raise lib.Inconclusive("sanity: when two owners of a shared field disagree the federated model must be able to diverge from "
+                                   "the monolith (OwnersAgree is a necessary part of Consistent), got %r" % neg2.result().error)
+        free.result()
+        mpool.shutdown()
     # ---- 3. generate ------------------------------------------------------------------------------
     gen = generate(ctx, entries, quick)
     cases = list(pinned)
@@ -587,7 +592,7 @@ def run(ctx):
     # ---- 4. replay --------------------------------------------------------------------------------
     results = run_driver(ctx, binary, catalog_path, cases, "all")
     mcf.result()   # model-level failure => INCONCLUSIVE (raised by tlc_must_pass)
-    free.result()
+    model_verdicts()
     bg.shutdown()
     # ---- 5./6. decide + validate ------------------------------------------------------------------
     nlines, nx, ncl = decide_and_validate(ctx, cases_by_id, results, entry_index, entries, quick, rng)
